@@ -2,7 +2,8 @@
    n | i <z> (Small) | I <z> (Big) | r <num> <den> | f <bits> | c <re> <im>
    | l <k> v*k | s <k> byte*k | v <k> num*k | y <k> byte*k | d <id> | o <id> | @name (bound by an earlier `def @name <val>` line)
    lines: op <eq|ne|lt|gt|le|ge> a b | cmp a b | rcmp a b | min k v*k | max k v*k | sort k v*k
-          | sorton k v*k | chain a m (op b)*m | dec <bits> | pcmp a b | oeq a b *)
+          | sorton k v*k | chain a m (op b)*m | dec <bits> | pcmp a b | oeq a b
+          | num <num> <num>  (Rust API level: partial_cmp, ==, NNum::min, NNum::max, total_eq) *)
 open Model
 open Conv
 
@@ -62,6 +63,10 @@ let () = serve (fun line ->
   | "sorton" :: k :: r -> show show_nats (sort_on_positions (vals k r))
   | "chain" :: r -> let (a, r) = parse_val r in
     (match r with m :: r -> show show_bool (chain_run a (parse_links (int_of_string m) r)) | [] -> "badcase")
+  | "num" :: r -> let (a, r) = parse_num r in let (b, _) = parse_num r in
+    let pc = (match nnum_partial_cmp a b with Some c -> show_cmp c | None -> "n") in
+    Printf.sprintf "%s %s %s %s %s" pc (show_bool (nnum_eq a b))
+      (if nnum_min a b == a then "a" else "b") (if nnum_max a b == a then "a" else "b") (show_bool (nnum_total_eq a b))
   | ["dec"; b] -> (match decode (coqn_of_string b) with
       | NaN -> "nan" | Inf s -> if s then "inf -" else "inf +"
       | Fin q -> "fin " ^ string_of_coqz q.qnum ^ " " ^ BZ.to_string (z_of_pos q.qden))
